@@ -219,6 +219,10 @@ class U:
         return self.ctx.oblige("canary:" + name, ops.B_(goal), kind="canary", expect="sat",
                                tags=tuple(tags) if tags else self.udef.props)
 
+    def known(self, name, goal, tags=None, note=""):
+        """A clause restricted to a recorded failure class (known_findings.json): expected to be refuted."""
+        return self.ctx.oblige(name, ops.B_(goal), kind="known", tags=tuple(tags) if tags else self.udef.props, note=note)
+
     def lemma(self, name, goal, tags=None):
         return self.ctx.oblige(name, ops.B_(goal), kind="lemma", tags=tuple(tags) if tags else self.udef.props)
 
@@ -349,6 +353,57 @@ def make_replay(u: U, ob, model, dimvals):
             "dims": dimvals, "witness_scalars": scal, "calls": calls}
 
 
+QUICK_MS = int(os.environ.get("TVC_QUICK_MS", "4000"))
+PAR = int(os.environ.get("TVC_UNIT_PAR", "4"))
+
+
+def _solve_forked(jobs, timeout_ms, use_cvc5):
+    """Solve each (ctx, ob) in a forked child: every query starts from the same solver state
+    (verdicts do not depend on the order in which obligations are tried) and up to PAR run at once."""
+    import pickle
+    import select
+
+    results = [None] * len(jobs)
+    pending = list(enumerate(jobs))
+    running = {}  # fd -> (idx, pid, buf)
+    while pending or running:
+        while pending and len(running) < PAR:
+            idx, (ctx, ob) = pending.pop(0)
+            r, w = os.pipe()
+            pid = os.fork()
+            if pid == 0:
+                os.close(r)
+                try:
+                    res = vc.solve(ctx, ob, timeout_ms=timeout_ms, use_cvc5=use_cvc5)
+                    payload = {"status": res.status if res.status != "refuted" else "refuted", "backend": res.backend,
+                               "secs": res.secs, "reason": res.reason}
+                except Exception as e:  # pragma: no cover
+                    payload = {"status": "error", "backend": "", "secs": 0.0, "reason": f"{type(e).__name__}: {e}"}
+                try:
+                    os.write(w, pickle.dumps(payload))
+                finally:
+                    os._exit(0)
+            os.close(w)
+            running[r] = (idx, pid, b"")
+        if not running:
+            break
+        ready, _, _ = select.select(list(running), [], [], 1.0)
+        for fd in ready:
+            idx, pid, buf = running[fd]
+            chunk = os.read(fd, 65536)
+            if chunk:
+                running[fd] = (idx, pid, buf + chunk)
+                continue
+            os.close(fd)
+            os.waitpid(pid, 0)
+            del running[fd]
+            try:
+                results[idx] = pickle.loads(buf)
+            except Exception:
+                results[idx] = {"status": "error", "backend": "", "secs": 0.0, "reason": "child died"}
+    return results
+
+
 def run_unit(name, repo_root=None, want_canaries=True, timeout_ms=None):
     """Returns a picklable dict with per-obligation verdicts."""
     t0 = time.time()
@@ -364,8 +419,8 @@ def run_unit(name, repo_root=None, want_canaries=True, timeout_ms=None):
         return out
     out["paths"] = len(runs)
     seen = {}
-    pending = []  # obligations needing a counterexample search
     dim_names = []
+    jobs = []
     for pr in runs:
         if pr.error:
             out["errors"].append(pr.error)
@@ -379,37 +434,68 @@ def run_unit(name, repo_root=None, want_canaries=True, timeout_ms=None):
                 dim_names.append(d)
         for ob in pr.ctx.obligations:
             if ob.expect == "sat":
-                rec = seen.setdefault(ob.name, {"name": ob.name, "kind": ob.kind, "tags": list(ob.tags), "loc": ob.loc,
-                                                 "status": "pending-canary", "secs": 0.0, "backend": "", "note": ob.note})
+                seen.setdefault(ob.name, {"name": ob.name, "kind": ob.kind, "tags": list(ob.tags), "loc": ob.loc,
+                                          "status": "pending-canary", "secs": 0.0, "backend": "", "note": ob.note})
                 continue
-            key = (ob.name, ob.goal.get_id() if is_z3(ob.goal) else str(ob.goal), len(ob.hyps))
-            try:
-                r = vc.solve(pr.ctx, ob, timeout_ms=timeout_ms)
-            except Exception as e:
-                out["errors"].append(("internal", f"solve {ob.name}: {type(e).__name__}: {e}"))
-                continue
-            rec = seen.get(ob.name)
-            new = {"name": ob.name, "kind": ob.kind, "tags": list(ob.tags), "loc": ob.loc, "status": r.status,
-                   "secs": r.secs, "backend": r.backend, "note": ob.note, "reason": r.reason, "instances": 1}
-            if rec is None:
-                seen[ob.name] = new
-            else:
-                rec["instances"] = rec.get("instances", 1) + 1
-                rec["secs"] += r.secs
-                order = {"proved": 0, "unknown": 1, "refuted": 2}
-                if order[r.status] > order.get(rec["status"], 0):
-                    rec.update({"status": r.status, "backend": r.backend, "reason": r.reason})
-    need_conc = [n for n, r in seen.items() if r["status"] in ("refuted", "unknown", "pending-canary")]
-    if need_conc and not out["errors"]:
-        _concrete_pass(udef, repo, dim_names, seen, need_conc, out)
+            jobs.append((pr.ctx, ob))
+    order = {"proved": 0, "unknown": 1, "error": 1, "refuted": 2}
+
+    def merge(ob, r):
+        rec = seen.get(ob.name)
+        new = {"name": ob.name, "kind": ob.kind, "tags": list(ob.tags), "loc": ob.loc, "status": r["status"],
+               "secs": r["secs"], "backend": r["backend"], "note": ob.note, "reason": r["reason"], "instances": 1}
+        if rec is None:
+            seen[ob.name] = new
+        else:
+            rec["instances"] = rec.get("instances", 1) + 1
+            rec["secs"] += r["secs"]
+            if order[r["status"]] > order.get(rec["status"], 0):
+                rec.update({"status": r["status"], "backend": r["backend"], "reason": r["reason"]})
+
+    # phase 1: short budget
+    res1 = _solve_forked(jobs, QUICK_MS, use_cvc5=False) if jobs else []
+    open_jobs = []
+    for (ctx, ob), r in zip(jobs, res1):
+        if r["status"] == "proved":
+            merge(ob, r)
+        else:
+            open_jobs.append((ctx, ob, r))
+    # phase 2: small concrete dimensions (counterexamples, canaries)
+    open_names = sorted({ob.name for _, ob, _ in open_jobs})
+    for n in open_names:
+        seen.setdefault(n, None)
+    canaries = [n for n, r in seen.items() if r and r["status"] == "pending-canary"]
+    found = {}
+    if (open_names or canaries) and not out["errors"]:
+        found = _concrete_search(udef, repo, dim_names, set(open_names) | set(canaries), out)
+    # phase 3: full budget (z3 then cvc5) for what is still open and has no counterexample
+    still = [(ctx, ob) for ctx, ob, _ in open_jobs if ob.name not in found]
+    res3 = _solve_forked(still, timeout_ms or vc.Z3_TIMEOUT_MS, use_cvc5=True) if still else []
+    for n in open_names:
+        if seen.get(n) is None:
+            del seen[n]
+    for (ctx, ob), r in zip(still, res3):
+        if r["status"] == "refuted":
+            r["status"] = "refuted"
+        merge(ob, r)
+    for ctx, ob, r in open_jobs:
+        if ob.name in found:
+            merge(ob, {"status": "refuted", "backend": "z3", "secs": r["secs"], "reason": "counterexample with small concrete dimensions"})
+            seen[ob.name]["replay"] = found[ob.name]
+    for n in canaries:
+        seen[n]["status"] = "canary-refuted" if n in found else "canary-not-refuted"
+    for n, rec in seen.items():
+        if rec["status"] == "refuted" and "replay" not in rec:
+            rec["replay"] = {"unit": udef.name, "obligation": n, "note": "solver model with symbolic dimensions only; no small instance found"}
+        if rec["status"] == "error":
+            out["errors"].append(("internal", f"solve {n}: {rec.get('reason')}"))
     out["obligations"] = list(seen.values())
     out["wall_s"] = time.time() - t0
     return out
 
 
-def _concrete_pass(udef, repo, dim_names, seen, need, out):
+def _concrete_search(udef, repo, dim_names, need, out):
     """Small concrete dimensions: quantifier-free instances give real counterexamples."""
-    need = set(need)
     found = {}
     t_start = time.time()
     for dv in small_dim_assignments(udef, dim_names):
@@ -431,7 +517,7 @@ def _concrete_pass(udef, repo, dim_names, seen, need, out):
                 if ob.name not in need or ob.name in found:
                     continue
                 try:
-                    r = vc.solve(pr.ctx, ob, timeout_ms=10000)
+                    r = vc.solve(pr.ctx, ob, timeout_ms=10000, use_cvc5=False)
                 except Exception as e:
                     continue
                 if r.status == "refuted":
@@ -440,20 +526,7 @@ def _concrete_pass(udef, repo, dim_names, seen, need, out):
                     except Exception as e:
                         rp = {"unit": udef.name, "obligation": ob.name, "extraction_error": f"{type(e).__name__}: {e}"}
                     found[ob.name] = rp
-    for n in need:
-        rec = seen[n]
-        if rec["kind"] == "canary":
-            if n in found:
-                rec["status"] = "canary-refuted"  # good
-            else:
-                rec["status"] = "canary-not-refuted"
-            continue
-        if n in found:
-            rec["status"] = "refuted"
-            rec["replay"] = found[n]
-        elif rec["status"] == "refuted":
-            rec["replay"] = {"unit": udef.name, "obligation": n, "note": "solver model with symbolic dimensions only; no small instance found"}
-        # unknown stays unknown
+    return found
 
 
 # ----------------------------------------------------------------------------
